@@ -26,6 +26,7 @@ RULE = (
 )
 RULE += (" " + 'Pipeline names are flat or path-like with equal basenames (the permutation sweep runs with both), and user pipelines may carry their own value_placeholders item.')
 RULE += (" File cases: 2-6 pipeline YAML files in prefix-related directories (conf, conf.d, conf-extra, conf/sub ...) with priority ties, named as directories, as single files and mixed, in several argument orders; the combined order must be (priority, path) for every way of naming.")
+RULE += (" A quarter of the conversions enter through convert_rule(rule, output_format) as the first call on a fresh backend (per-query results, no finalizers).")
 ASSUMPTIONS = [
     "expected outputs are computed by string construction in the model, not by pySigma",
     "each conversion uses a fresh backend class (backend-level sharing is C15's subject)",
@@ -53,7 +54,7 @@ def spec_to_dict(spec: dict) -> dict:
     return d
 
 
-def model_output(specs: list[dict], fmt: str):
+def model_output(specs: list[dict], fmt: str, finalize: bool = True):
     suffix = "_B" + "".join("_" + s for sp in specs for s in sp["suffixes"]) + ("_O" if fmt == "alt" else "")
     v = "vB"
     for sp in specs:
@@ -70,6 +71,8 @@ def model_output(specs: list[dict], fmt: str):
         for p in sp["post"]:
             qs = [f"<{p} {q} {p}>" for q in qs]
     out = qs
+    if not finalize:  # convert_rule: per-query results, the finalizers belong to convert()
+        return out
     for sp in specs:
         for f in sp["finalizers"]:
             out = "F" + f + "[" + (out if isinstance(out, str) else ";".join(out)) + "]"
@@ -234,9 +237,15 @@ def check_case(case: dict) -> Outcome:
                 if not clean(k):
                     reused = True
                     out.label("operand-reused-after-add")
-                want = model_output(objs[k][1], fmt)
-                history.append(f"convert(p{k},{fmt})")
-                got = _backend(objs[k][0]).convert(SigmaCollection.from_dicts([copy.deepcopy(RULE_DOC)]), fmt)
+                via_rule = len(op) > 3 and op[3] == "rule"
+                want = model_output(objs[k][1], fmt, finalize=not via_rule)
+                history.append(f"convert{'_rule' if via_rule else ''}(p{k},{fmt})")
+                if via_rule:  # first call on a fresh backend is convert_rule with the output format
+                    out.label("convert_rule-entry")
+                    from sigma.rule import SigmaRule as _SR
+                    got = _backend(objs[k][0]).convert_rule(_SR.from_dict(copy.deepcopy(RULE_DOC)), fmt)
+                else:
+                    got = _backend(objs[k][0]).convert(SigmaCollection.from_dicts([copy.deepcopy(RULE_DOC)]), fmt)
                 for b in objs[k][2]:
                     owner[b] = "backend"  # the backend adds the pipeline to its own: items are re-owned
                 if got != want:
@@ -333,7 +342,7 @@ def cases(draw, reuse: bool):
                 k = nobj - 1
                 if k in used:
                     continue
-            ops.append(["convert", k, draw(st.sampled_from(["default", "alt"]))])
+            ops.append(["convert", k, draw(st.sampled_from(["default", "alt"]))] + (["rule"] if draw(st.integers(0, 3)) == 0 else []))
     if not any(o[0] == "convert" for o in ops):
         ops.append(["convert", nobj - 1, draw(st.sampled_from(["default", "alt"]))])
     return {"specs": specs, "ops": ops}
